@@ -25,6 +25,20 @@ HEADER = ("From Coq Require Import List NArith.\nFrom PV Require Import Lib.List
           "Definition em (d s : str) := emit_ident_row ident_start ident_rest common_keywords dialect_keywords ident_dialects d s.\n")
 
 
+_coq_eval_raw = coq_eval
+
+
+def coq_eval(header, exprs):
+    """coq_eval with one retry: another check may have rebuilt a shared model file (Model/Literal.v, SqlLex.v) meanwhile, which
+    leaves our .vo files stale ("makes inconsistent assumptions"); rebuild ours and evaluate again"""
+    try:
+        return _coq_eval_raw(header, exprs)
+    except RuntimeError:
+        with Lock("coq"):
+            coq_make(["Model/Escape.vo", "Model/SqlLex.vo", "Model/Ident.vo", "Model/NameGen.vo", "Gen/GenKeywords.vo", "Gen/GenIdentDialect.vo"])
+        return _coq_eval_raw(header, exprs)
+
+
 def s_of(codes):
     return "".join(chr(c) for c in codes)
 
@@ -113,11 +127,9 @@ def run():
             ck.coverage.setdefault("translator_error", []).append(inf["error"])
 
     def cl_names(case):
-        # F18, F32, F31, F33, F33b are FIXED (68466ba, b5c2cd4, 75c6718, 99a89d3, 6cdd79f): nothing excuses them any more
+        # F18, F32, F31, F33, F33b, C09-N2 are FIXED (68466ba, b5c2cd4, 75c6718, 99a89d3, 6cdd79f, 3807cba): nothing excuses them any more
         if case.get("kind") == "format-tokens" and any("\\" in n for n in case.get("names", [])) and '"' in case.get("unformatted", ""):
             return "C09-N1-sqlformat-splits-backslash-identifier"
-        if case.get("kind") == "format-tokens" and any("$" in n and n == fold(n) and (" " + n + ",") in case.get("unformatted", "") for n in case.get("names", [])):
-            return "C09-N2-sqlformat-splits-dollar-in-bare-identifier"
         return None
 
     # ------------------------------------------------------------ names
